@@ -41,17 +41,38 @@ Proof. unfold set_of. rewrite update_str_In. cbn [In]. tauto. Qed.
 (* ---------------------------------------------------------------- stage 1, the group file, the info file *)
 (* read_groups of one chromosome after its alignments were grouped: answers = the values get_group_id returned, in processing order *)
 Definition registered_groups (answers:list str) : list str := set_of answers.
-(* for g in read_groups: group_dump.write("%s\n" % g) - the lines in the enumeration order of the set;
-   resume: read_groups.clear(); for g in open(group_file): read_groups.add(g.strip()) *)
-Definition read_group_file (lines:list str) : list str := set_of (map strip lines).
+(* for g in read_groups: group_dump.write("%s\n" % g) - in the enumeration order of the set *)
+Definition file_text (groups:list str) : str := flat_map (fun g => g ++ [10]) groups.
+(* for g in open(group_file): text mode with universal newlines - "\n", "\r" and "\r\n" end a line; the contents of the lines (without terminator) *)
+Fixpoint read_lines_go (s cur:str) (after_cr:bool) : list str :=
+  match s with
+  | [] => match cur with [] => [] | _ => [rev cur] end
+  | c :: t => if c =? 10 then (if after_cr then read_lines_go t [] false else rev cur :: read_lines_go t [] false)
+              else if c =? 13 then rev cur :: read_lines_go t [] true
+              else read_lines_go t (c :: cur) false
+  end.
+Definition read_lines (text:str) : list str := read_lines_go text [] false.
+(* resume: read_groups.clear(); for g in open(group_file): read_groups.add(g.rstrip("\n")) - the terminator only (repaired, commit 40e2502);
+   before the repair: g.strip() *)
+Fixpoint lstrip_nl (s:str) : str := match s with c :: t => if c =? 10 then lstrip_nl t else s | [] => [] end.
+Definition rstrip_nl (s:str) : str := rev (lstrip_nl (rev s)).
+Definition read_group_file_gen (clean:str -> str) (text:str) : list str := set_of (map clean (read_lines text)).
+Definition read_group_file := read_group_file_gen rstrip_nl.
+Definition read_group_file_unrepaired := read_group_file_gen strip.
 (* what collect_reads_in_parallel returns for one chromosome *)
-Definition chr_groups (resume:bool) (enum:list str -> list str) (answers:list str) : list str :=
-  if resume then read_group_file (enum (registered_groups answers)) else registered_groups answers.
+Definition chr_groups_gen (clean:str -> str) (resume:bool) (enum:list str -> list str) (answers:list str) : list str :=
+  if resume then read_group_file_gen clean (file_text (enum (registered_groups answers))) else registered_groups answers.
+Definition chr_groups := chr_groups_gen rstrip_nl.
+Definition chr_groups_unrepaired := chr_groups_gen strip.
 (* the parent: all_read_groups.update(read_groups) per chromosome; write_list(list(all_read_groups)); load_read_info: set(read_list(...)) *)
 Definition union_groups (per_chr:list (list str)) : list str := fold_left update_str per_chr [].
-Definition universe (resume:bool) (enum_file enum_info:list str -> list str) (chrs:list (list str)) : list str :=
-  set_of (enum_info (union_groups (map (chr_groups resume enum_file) chrs))).
+Definition universe_gen (clean:str -> str) (resume:bool) (enum_file enum_info:list str -> list str) (chrs:list (list str)) : list str :=
+  set_of (enum_info (union_groups (map (chr_groups_gen clean resume enum_file) chrs))).
+Definition universe := universe_gen rstrip_nl.
+Definition universe_unrepaired := universe_gen strip.
 Definition enumeration (enum:list str -> list str) : Prop := forall l x, In x (enum l) <-> In x l.
+(* a name without line terminators *)
+Definition no_newline (g:str) : bool := forallb (fun c => negb ((c =? 10) || (c =? 13))) g.
 
 Lemma union_groups_In (per_chr:list (list str)) y : In y (union_groups per_chr) <-> exists s, In s per_chr /\ In y s.
 Proof. unfold union_groups. assert (G: forall l u, In y (fold_left update_str l u) <-> In y u \/ exists s, In s l /\ In y s).
@@ -61,37 +82,77 @@ Proof. unfold union_groups. assert (G: forall l u, In y (fold_left update_str l 
       + intros [[H|H]|[s' [H1 H2]]]; [left; exact H|right; exists s; split; [left; reflexivity|exact H]|right; exists s'; split; [right; exact H1|exact H2]].
       + intros [H|[s' [[E|H1] H2]]]; [left; left; exact H|subst; left; right; exact H2|right; exists s'; split; assumption]. }
   rewrite G. cbn [In]. tauto. Qed.
-Lemma chr_groups_In resume enum answers y : enumeration enum -> (resume = true -> forall g, In g answers -> strip g = g) ->
-  (In y (chr_groups resume enum answers) <-> In y answers).
-Proof. intros E S. unfold chr_groups, read_group_file, registered_groups. destruct resume; [|apply set_of_In].
-  rewrite set_of_In, in_map_iff. split.
-  - intros [g [Eg H]]. apply (proj1 (E _ _)) in H. apply (proj1 (set_of_In _ _)) in H. rewrite (S eq_refl g H) in Eg. subst. exact H.
+(* a file written from names without line terminators is read back line by line *)
+Lemma read_lines_go_line : forall g rest cur, no_newline g = true -> read_lines_go (g ++ 10 :: rest) cur false = rev (rev g ++ cur) :: read_lines_go rest [] false.
+Proof. induction g as [|c t IH]; intros rest cur N; cbn [app read_lines_go]; [rewrite Z.eqb_refl; reflexivity|].
+  cbn [no_newline forallb] in N. apply andb_true_iff in N. destruct N as [N1 N2]. apply negb_true_iff, orb_false_iff in N1. destruct N1 as [A B]. rewrite A, B.
+  rewrite (IH rest (c :: cur) N2). cbn [rev]. rewrite <- app_assoc. reflexivity. Qed.
+Lemma read_lines_file_text groups : (forall g, In g groups -> no_newline g = true) -> read_lines (file_text groups) = groups.
+Proof. unfold read_lines. induction groups as [|g t IH]; intros H; [reflexivity|]. cbn [file_text flat_map]. rewrite <- app_assoc. cbn [app].
+  rewrite read_lines_go_line by (apply H; left; reflexivity). rewrite app_nil_r, rev_involutive. f_equal. apply IH. intros x Hx. apply H. right. exact Hx. Qed.
+Lemma rstrip_nl_id g : no_newline g = true -> rstrip_nl g = g.
+Proof. intros N. unfold rstrip_nl. assert (L: lstrip_nl (rev g) = rev g).
+  { destruct (rev g) as [|c t] eqn:E; [reflexivity|]. cbn [lstrip_nl]. assert (I: In c g) by (apply in_rev; rewrite E; left; reflexivity).
+    unfold no_newline in N. rewrite forallb_forall in N. specialize (N c I). apply negb_true_iff, orb_false_iff in N. destruct N as [A _]. rewrite A. reflexivity. }
+  rewrite L. apply rev_involutive. Qed.
+Lemma chr_groups_gen_In clean resume enum answers y : enumeration enum ->
+  (resume = true -> forall g, In g answers -> no_newline g = true /\ clean g = g) ->
+  (In y (chr_groups_gen clean resume enum answers) <-> In y answers).
+Proof. intros E S. unfold chr_groups_gen, read_group_file_gen, registered_groups. destruct resume; [|apply set_of_In].
+  assert (NN: forall g, In g (enum (set_of answers)) -> no_newline g = true).
+  { intros g H. apply (proj1 (E _ _)) in H. apply (proj1 (set_of_In _ _)) in H. apply (S eq_refl g H). }
+  rewrite (read_lines_file_text _ NN), set_of_In, in_map_iff. split.
+  - intros [g [Eg H]]. apply (proj1 (E _ _)) in H. apply (proj1 (set_of_In _ _)) in H. rewrite (proj2 (S eq_refl g H)) in Eg. subst. exact H.
   - intros H. exists y. split; [apply (S eq_refl), H|apply (proj2 (E _ _)), (proj2 (set_of_In _ _)), H]. Qed.
 
-(* every group a processed read carries is in the universe the counters are built with - for every distribution of the reads over
-   the chromosomes, every order of the chromosomes and every enumeration order of the sets; on --resume provided the group names
-   have no leading / trailing white space (the read-back strips the lines) *)
+Section Universe.
+Variable clean : str -> str.
+Variables (resume:bool) (enum_file enum_info:list str -> list str) (chrs:list (list str)).
+Hypothesis E1 : enumeration enum_file.
+Hypothesis E2 : enumeration enum_info.
+Hypothesis S : resume = true -> forall answers g, In answers chrs -> In g answers -> no_newline g = true /\ clean g = g.
+Lemma universe_gen_complete answers g : In answers chrs -> In g answers -> In g (universe_gen clean resume enum_file enum_info chrs).
+Proof. intros Ha Hg. unfold universe_gen. apply (proj2 (set_of_In _ _)), (proj2 (E2 _ _)), (proj2 (union_groups_In _ _)).
+  exists (chr_groups_gen clean resume enum_file answers). split; [apply in_map, Ha|].
+  apply chr_groups_gen_In; [exact E1|intros R g' Hg'; apply (S R answers g' Ha Hg')|exact Hg]. Qed.
+Lemma universe_gen_sound g : In g (universe_gen clean resume enum_file enum_info chrs) -> exists answers, In answers chrs /\ In g answers.
+Proof. intros H. unfold universe_gen in H. apply (proj1 (set_of_In _ _)) in H. apply (proj1 (E2 _ _)) in H. apply (proj1 (union_groups_In _ _)) in H. destruct H as [s [Hs Hg]].
+  apply in_map_iff in Hs. destruct Hs as [answers [Es Ha]]. subst s. exists answers. split; [exact Ha|].
+  apply (chr_groups_gen_In clean resume enum_file answers g E1); [intros R g' Hg'; apply (S R answers g' Ha Hg')|exact Hg]. Qed.
+End Universe.
+
+(* every group a processed read carries is in the universe the counters are built with - for every distribution of the reads over the chromosomes,
+   every order of the chromosomes and every enumeration order of the sets; on --resume for names without a line terminator ("\n", "\r"): the group
+   file has one name per line *)
 Theorem universe_complete resume enum_file enum_info chrs : enumeration enum_file -> enumeration enum_info ->
-  (resume = true -> forall answers g, In answers chrs -> In g answers -> strip g = g) ->
+  (resume = true -> forall answers g, In answers chrs -> In g answers -> no_newline g = true) ->
   forall answers g, In answers chrs -> In g answers -> In g (universe resume enum_file enum_info chrs).
-Proof. intros E1 E2 S answers g Ha Hg. unfold universe. apply (proj2 (set_of_In _ _)), (proj2 (E2 _ _)), (proj2 (union_groups_In _ _)).
-  exists (chr_groups resume enum_file answers). split; [apply in_map, Ha|].
-  apply chr_groups_In; [exact E1|intros R g' Hg'; apply (S R answers g' Ha Hg')|exact Hg]. Qed.
+Proof. intros E1 E2 S. apply (universe_gen_complete rstrip_nl resume enum_file enum_info chrs E1 E2).
+  intros R answers g Ha Hg. split; [apply (S R answers g Ha Hg)|apply rstrip_nl_id, (S R answers g Ha Hg)]. Qed.
 (* ... and nothing else is: a group of the universe was returned by the grouper for some alignment of some chromosome *)
 Theorem universe_sound resume enum_file enum_info chrs : enumeration enum_file -> enumeration enum_info ->
-  (resume = true -> forall answers g, In answers chrs -> In g answers -> strip g = g) ->
+  (resume = true -> forall answers g, In answers chrs -> In g answers -> no_newline g = true) ->
   forall g, In g (universe resume enum_file enum_info chrs) -> exists answers, In answers chrs /\ In g answers.
-Proof. intros E1 E2 S g H. unfold universe in H. apply (proj1 (set_of_In _ _)) in H. apply (proj1 (E2 _ _)) in H. apply (proj1 (union_groups_In _ _)) in H. destruct H as [s [Hs Hg]].
-  apply in_map_iff in Hs. destruct Hs as [answers [Es Ha]]. subst s. exists answers. split; [exact Ha|].
-  apply (chr_groups_In resume enum_file answers g E1); [intros R g' Hg'; apply (S R answers g' Ha Hg')|exact Hg]. Qed.
+Proof. intros E1 E2 S. apply (universe_gen_sound rstrip_nl resume enum_file enum_info chrs E1 E2).
+  intros R answers g Ha Hg. split; [apply (S R answers g Ha Hg)|apply rstrip_nl_id, (S R answers g Ha Hg)]. Qed.
 Theorem universe_NoDup resume enum_file enum_info chrs : NoDup (universe resume enum_file enum_info chrs).
-Proof. unfold universe, set_of. apply update_str_NoDup. constructor. Qed.
-(* the resume path without that proviso: a group " g1" (a CSV table written "read, g1") is read back as "g1"; the reads still carry " g1" *)
+Proof. unfold universe, universe_gen, set_of. apply update_str_NoDup. constructor. Qed.
+(* the code before the repair needed names without white space at their ends as well *)
+Theorem universe_complete_unrepaired resume enum_file enum_info chrs : enumeration enum_file -> enumeration enum_info ->
+  (resume = true -> forall answers g, In answers chrs -> In g answers -> no_newline g = true /\ strip g = g) ->
+  forall answers g, In answers chrs -> In g answers -> In g (universe_unrepaired resume enum_file enum_info chrs).
+Proof. intros E1 E2 S. apply (universe_gen_complete strip resume enum_file enum_info chrs E1 E2 S). Qed.
+(* ... and lost " g1" (a CSV table written "read, g1"): read back as "g1" while the reads carry " g1"; the repaired read-back keeps it *)
 Example universe_complete_resume_padded_refuted :
   let g := [32; 103; 49] in
-  universe true (fun l => l) (fun l => l) [[g]] = [[103; 49]] /\ mem_str g (universe true (fun l => l) (fun l => l) [[g]]) = false /\
-  universe false (fun l => l) (fun l => l) [[g]] = [g].
+  universe_unrepaired true (fun l => l) (fun l => l) [[g]] = [[103; 49]] /\ mem_str g (universe_unrepaired true (fun l => l) (fun l => l) [[g]]) = false /\
+  universe true (fun l => l) (fun l => l) [[g]] = [g] /\ universe_unrepaired false (fun l => l) (fun l => l) [[g]] = [g].
 Proof. vm_compute. repeat split; reflexivity. Qed.
+(* what remains after the repair: a name that contains a line terminator is cut into two lines of the group file *)
+Example universe_complete_resume_newline_refuted :
+  let g := [97; 10; 98] in
+  universe true (fun l => l) (fun l => l) [[g]] = [[97]; [98]] /\ mem_str g (universe true (fun l => l) (fun l => l) [[g]]) = false.
+Proof. vm_compute. split; reflexivity. Qed.
 
 (* ---------------------------------------------------------------- AssignedFeatureCounter.__init__: sorted(read_groups), positions *)
 Fixpoint str_ltb (a b:str) : bool :=
@@ -118,7 +179,7 @@ Proof. induction l as [|h t IH]; cbn [In index_of]; [intros []|]. intros H. dest
 Definition counter_ordered (univ:list str) : list str := match univ with [] => [NA] | _ => sort_strs univ end.
 (* group_numeric_ids[g] is defined for every group a processed read carries, and ordered_groups[id] is that group again *)
 Theorem universe_ids_defined resume enum_file enum_info chrs : enumeration enum_file -> enumeration enum_info ->
-  (resume = true -> forall answers g, In answers chrs -> In g answers -> strip g = g) ->
+  (resume = true -> forall answers g, In answers chrs -> In g answers -> no_newline g = true) ->
   forall answers g, In answers chrs -> In g answers ->
   let ordered := counter_ordered (universe resume enum_file enum_info chrs) in
   exists i, index_of g ordered = Some i /\ nth i ordered [] = g.
